@@ -110,7 +110,7 @@ def run(tier, seed):
         jobs = []
         for k in range(done, min(done + batch, n_core + n_opt)):
             if k < n_core:
-                src = gen_core.generate(seed, k, avoid=avoid, features=features, label="c03")[0]
+                src = gen_core.generate_form(seed, k, avoid=avoid, features=features if k % 4 < 2 else None, label="c03")[0]
             else:
                 src = gen_opt.generate(seed, k)
             jobs.append(mkjob(src, k))
